@@ -11,7 +11,10 @@ package main
 import (
 	"bytes"
 	"encoding/json"
+	"errors"
 	"fmt"
+	"io"
+	"net"
 	"net/http"
 	"os"
 	"sort"
@@ -300,13 +303,24 @@ func scenarios(tier string, keep func(id int) bool) (map[int]*Scenario, int, map
 			twoWrites(sc, "", add)
 		}
 	}
-	// 2. dial outcomes
+	// 2. dial outcomes: the first dial fails with an error of every class - on the plain-HTTP path (the
+	// transport dials; request 1 GET/POST) and on the CONNECT path (the proxy's own connect() dials; request 1
+	// is CONNECT) - or is accepted and closed at once; the second request follows afterwards or is already
+	// pipelined
 	for _, pr := range protos {
-		for _, m := range []string{"GET", "POST"} {
-			for _, m2 := range m2s {
-				for _, pipe := range pipes {
-					add(Scenario{Kind: "dial", Dial: "refused", Method: m, Proto: pr, Script: "cl", K: -1, M2: m2, Pipe: pipe})
-					add(Scenario{Kind: "dial", Dial: "accept_close", Method: m, Proto: pr, Script: "cl", K: -1, M2: m2, Pipe: pipe})
+		for _, m := range []string{"GET", "POST", "CONNECT"} {
+			for _, de := range dialErrorClasses {
+				for _, m2 := range m2s {
+					for _, pipe := range []bool{false, true} {
+						add(Scenario{Kind: "dial", Dial: de, Method: m, Proto: pr, Script: "cl", K: -1, M2: m2, Pipe: pipe})
+					}
+				}
+			}
+			if m != "CONNECT" {
+				for _, m2 := range m2s {
+					for _, pipe := range []bool{false, true} {
+						add(Scenario{Kind: "dial", Dial: "accept_close", Method: m, Proto: pr, Script: "cl", K: -1, M2: m2, Pipe: pipe})
+					}
 				}
 			}
 		}
@@ -503,11 +517,38 @@ type runOut struct {
 	origin   int
 }
 
+// dial error classes: what the dial function hands back for the first dial
+var dialErrorClasses = []string{"refused", "timeout", "eof", "closed_pipe", "unexpected_eof", "generic"}
+
+func dialError(class, addr string) error {
+	switch class {
+	case "timeout": // a net.Error with Timeout() == true
+		return &net.OpError{Op: "dial", Net: "tcp", Err: os.ErrDeadlineExceeded}
+	case "eof":
+		return io.EOF
+	case "closed_pipe":
+		return io.ErrClosedPipe
+	case "unexpected_eof":
+		return io.ErrUnexpectedEOF
+	case "generic":
+		return errors.New("c03: dial failed for no particular reason")
+	}
+	return h1harness.Refused(addr)
+}
+
 func request(method, path, proto string) []byte {
 	var sb strings.Builder
 	v := "HTTP/1.1"
 	if proto == "1.0ka" {
 		v = "HTTP/1.0"
+	}
+	if method == "CONNECT" {
+		fmt.Fprintf(&sb, "CONNECT %s:80 %s\r\nHost: %s:80\r\n", originHost, v, originHost)
+		if proto == "1.0ka" {
+			sb.WriteString("Connection: keep-alive\r\n")
+		}
+		sb.WriteString("\r\n")
+		return []byte(sb.String())
 	}
 	fmt.Fprintf(&sb, "%s http://%s%s %s\r\nHost: %s\r\n", method, originHost, path, v, originHost)
 	if proto == "1.0ka" {
@@ -615,8 +656,8 @@ func runScenario(s *Scenario, kind string, quiet time.Duration) *runOut {
 	}
 	reqmod, resmod := stockModifier(s.Mod, rec)
 	env, err := h1harness.NewEnv(h1harness.EnvOpts{Kind: kind, ResMod: resmod, ReqMod: reqmod, Dial: func(n int, addr string) error {
-		if s.Dial == "refused" && n == 0 {
-			return h1harness.Refused(addr)
+		if s.Kind == "dial" && s.Dial != "accept_close" && n == 0 {
+			return dialError(s.Dial, addr)
 		}
 		if addr != originHost+":80" {
 			return h1harness.Refused(addr)
@@ -1110,7 +1151,7 @@ func main() {
 	rep.Coverage["distinct_nontrivial"] = rep.Counter("nontrivial")
 	rep.Coverage["distinct_outcomes"] = len(agg.Keys["outcomes"])
 	rep.Coverage["exhaustive"] = rep.Incomplete == ""
-	rep.Coverage["rule"] = "modifier configurations {none, har.NewLogger(), martianlog.NewLogger(), marbl.NewModifier} as request+response modifier for the truncation family; truncate: response script x client protocol x {fresh, reused upstream connection} x {GET, POST} x every offset k in 0..len(script) (origin writes k bytes, closes); dial: {refused, accepted-then-closed} x method; garbage: 20 non-HTTP/malformed origin answers x every prefix (oversized header: 3 offsets); client: 35 client byte streams x every prefix (3 oversized ones: listed offsets) and every single-byte corruption (replacement set) of 3 valid requests; mitm: proxy with SetMITM, 23 CONNECT request-line/Host shapes x 9 continuations after the 200 (ClientHello with SNI / without SNI / TLS 1.2 without SNI, plaintext request, two kinds of garbage, a lone 0x16, close, close without reading) and a no-SNI ClientHello cut at every offset, each followed by a marker request on a fresh connection; every other scenario continues with a well-formed request for a marker response on the same client connection. Non-trivial: the fault happens after at least one byte (k > 0), or is a dial fault or a corruption."
+	rep.Coverage["rule"] = "modifier configurations {none, har.NewLogger(), martianlog.NewLogger(), marbl.NewModifier} as request+response modifier for the truncation family; truncate: response script x client protocol x {fresh, reused upstream connection} x {GET, POST} x every offset k in 0..len(script) (origin writes k bytes, closes); dial: first dial fails with {refused, timeout (net.Error), io.EOF, io.ErrClosedPipe, io.ErrUnexpectedEOF, generic error} on the plain-HTTP path (GET/POST, the transport dials) and on the CONNECT path (the proxy's connect() dials), or is accepted-then-closed, x second request afterwards / already pipelined; garbage: 20 non-HTTP/malformed origin answers x every prefix (oversized header: 3 offsets); client: 35 client byte streams x every prefix (3 oversized ones: listed offsets) and every single-byte corruption (replacement set) of 3 valid requests; mitm: proxy with SetMITM, 23 CONNECT request-line/Host shapes x 9 continuations after the 200 (ClientHello with SNI / without SNI / TLS 1.2 without SNI, plaintext request, two kinds of garbage, a lone 0x16, close, close without reading) and a no-SNI ClientHello cut at every offset, each followed by a marker request on a fresh connection; every other scenario continues with a well-formed request for a marker response on the same client connection. Non-trivial: the fault happens after at least one byte (k > 0), or is a dial fault or a corruption."
 	rep.Coverage["bounds"] = fmt.Sprintf("tier %s: %d scenarios %v; scripts %d; one client connection (+1 fresh probe connection for client streams); loopback-TCP re-run of every 9th (quick) / 197th (thorough) scenario", tier, total, fams, len(scripts(tier)))
 	rep.Assumptions = []string{
 		"an origin that stalls without closing is not modelled (would need the proxy's 5-minute timeout)",
